@@ -115,10 +115,33 @@ fn measure(shape: &Shape) -> J {
     }
 }
 
+/// entry point of the child process that measures one shape (its death is data for the parent)
+pub fn measure_child(index: usize, thorough: bool) {
+    let shs = shapes(thorough);
+    println!("{}", measure(&shs[index]));
+}
+
+/// the measurement in a process of its own: code under test that exhausts the native stack kills only that process
+fn measure_isolated(index: usize, thorough: bool) -> J {
+    let exe = std::env::current_exe().expect("current_exe");
+    let mut cmd = Command::new("timeout");
+    cmd.arg("120").arg(exe).arg("measure").arg("c18").arg(index.to_string());
+    if thorough { cmd.arg("--thorough"); }
+    match cmd.stdin(Stdio::null()).stderr(Stdio::null()).output() {
+        Ok(o) if o.status.success() => serde_json::from_slice(&o.stdout).unwrap_or(json!({"depths": [], "bytes_per_level": 0, "guard": false, "msg": "unreadable measurement"})),
+        Ok(o) => {
+            use std::os::unix::process::ExitStatusExt;
+            json!({"depths": [], "bytes_per_level": 0, "calls_total": 0, "guard": false, "crashed": true,
+                   "msg": format!("measurement process died (exit {:?}, signal {:?}) while running the runaway program in process", o.status.code(), o.status.signal())})
+        }
+        Err(e) => json!({"depths": [], "bytes_per_level": 0, "guard": false, "msg": format!("spawn: {e}")}),
+    }
+}
+
 pub fn record(cli: &str, thorough: bool) -> Vec<J> {
     let mut out = vec![];
-    for sh in shapes(thorough) {
-        let m = measure(&sh);
+    for (index, sh) in shapes(thorough).into_iter().enumerate() {
+        let m = measure_isolated(index, thorough);
         let (rc, rout, rerr) = run_cli(cli, &sh.runaway);
         let (fc, fout, _ferr) = run_cli(cli, &sh.finite);
         let finite_ok = fc == Some(0) && fout.trim() == format!("{{\"r\":{}}}", sh.finite_value);
